@@ -37,7 +37,8 @@ func NewSearch() *Search {
 	for i := 0; i < len(search.bestLineAtDepth); i++ {
 		search.bestLineAtDepth[i] = make([]Move, MaxSearchDepth-i)
 	}
-	search.stop = make(chan bool)
+	// capacity 1: `stop` leaves its request here without waiting for the search to poll
+	search.stop = make(chan bool, 1)
 	search.interrupted = true
 	return search
 }
